@@ -971,6 +971,46 @@ class Program:
                 continue
             if any(c.t.get("resolved") in helpers for c in f.calls(reachable_only=False)):
                 self.fns[p] = inline_private_helpers(self, f, only=helpers, depth=3)
+        # a helper whose every use is a (now spliced) direct call is represented completely by its
+        # callers: hide it so whole-program site scans see each construct once, in its caller.
+        still = set()
+        for p, f in self.fns.items():
+            if p in helpers:
+                continue
+            for b in f.blocks:
+                t = b["term"]
+                if t["k"] == "call" and (t.get("resolved") in helpers or t.get("decl") in helpers):
+                    still.add(t.get("resolved") if t.get("resolved") in helpers else t.get("decl"))
+                ops = list(t.get("args", [])) if t["k"] == "call" else []
+                for s in b["stmts"]:
+                    if s["k"] == "assign":
+                        ops.extend(_rv_operands(s["rv"]))
+                for op in ops:
+                    c = op.get("const") if isinstance(op, dict) else None
+                    if c and c.get("kind") == "fn":
+                        for k in ("path", "resolved"):
+                            if c.get(k) in helpers:
+                                still.add(c[k])
+        # helpers only used by helpers that stay visible must stay too
+        changed = True
+        while changed:
+            changed = False
+            for h in list(still):
+                for c in self.fns[h].calls(reachable_only=False):
+                    r = c.t.get("resolved")
+                    if r in helpers and r not in still:
+                        still.add(r)
+                        changed = True
+        self.hidden_fns = {}
+        for h in sorted(helpers - still):
+            self.hidden_fns[h] = self.fns.pop(h)
+        for q, f in self.fns.items():
+            for key in ("closure_of", "closure_parent"):
+                h = f.d.get(key)
+                if h in self.hidden_fns:
+                    hosts = [x for x, g in self.fns.items() if h in (getattr(g, "inlined", None) or ()) and g.kind != "Closure"]
+                    if len(hosts) == 1:
+                        f.d[key] = hosts[0]
 
     def fn(self, path):
         f = self.fns.get(path)
@@ -1017,7 +1057,8 @@ class Program:
         return out
 
     def closures_of(self, fnpath):
-        return [f for f in self.fns.values() if f.d.get("closure_of") == fnpath]
+        owners = {fnpath} | set(getattr(self.fns.get(fnpath), "inlined", ()) or ())
+        return [f for f in self.fns.values() if f.d.get("closure_of") in owners]
 
     # ---- call graph
     def _local_adts_rx(self):
@@ -1371,9 +1412,185 @@ def inline_private_helpers(prog, fn, wanted=None, depth=2, max_blocks=120, only=
             work.append((j, stack + (cf.path,), dep + 1))
     if not inlined:
         return fn
+    _thread_jumps(blocks)
     d["locals"] = locals_
     d["blocks"] = blocks
     d["arg_count"] = fn.nargs
     nf = Fn(prog, fn.path, d)
     nf.inlined = inlined
     return nf
+
+
+# --------------------------------------------------------------------------
+# jump threading after inlining: a helper that returns a constant on each of its
+# exits (`return true` / `return false`) followed by a switch on that value in
+# the caller is the same program as branching directly; the spliced CFG is
+# rewritten so (tail duplication of the statement-only chain between the join
+# and the switch) and every path analysis sees the direct branch.
+
+_PURE_RV = ("use", "un", "cast", "discr")
+
+
+def _succ_fields(t):
+    out = []
+    k = t["k"]
+    if k == "goto":
+        out.append(("target", None))
+    elif k == "switch":
+        out.extend(("arms", i) for i in range(len(t["arms"])))
+        out.append(("otherwise", None))
+    elif k in ("drop", "assert"):
+        out.append(("target", None))
+    elif k == "call" and t.get("target") is not None:
+        out.append(("target", None))
+    return out
+
+
+def _get_succ(t, fld):
+    return t["arms"][fld[1]]["target"] if fld[0] == "arms" else t[fld[0]]
+
+
+def _set_succ(t, fld, v):
+    if fld[0] == "arms":
+        t["arms"] = [dict(a) for a in t["arms"]]
+        t["arms"][fld[1]]["target"] = v
+    else:
+        t[fld[0]] = v
+
+
+def _op_const(op):
+    c = op.get("const") if isinstance(op, dict) else None
+    if c is None:
+        return None
+    if c.get("kind") == "bool":
+        return 1 if c.get("value") else 0
+    if c.get("kind") == "int" and isinstance(c.get("value"), int):
+        return c["value"]
+    return None
+
+
+def _thread_jumps(blocks, max_new=96, rounds=8):
+    def simple_block(b):
+        if b.get("cleanup") or b["term"]["k"] not in ("goto", "drop", "switch"):
+            return False
+        for st in b["stmts"]:
+            if st["k"] == "assign":
+                if st["lhs"]["p"] or st["rv"]["k"] not in _PURE_RV:
+                    return False
+            elif st["k"] not in ("dead", "live", "nop", "storage"):
+                if st["k"] == "set_discr":
+                    return False
+        return True
+
+    def run(env, b, upto_term=True):
+        """interpret the pure statements of block b over env (local -> const)"""
+        for st in b["stmts"]:
+            if st["k"] != "assign" or st["lhs"]["p"]:
+                continue
+            rv = st["rv"]
+            v = None
+            if rv["k"] == "use":
+                v = val(env, rv["a"])
+            elif rv["k"] == "un" and rv.get("op") == "Not" and rv.get("ty") == "bool":
+                x = val(env, rv["a"])
+                v = None if x is None else (0 if x else 1)
+            env[st["lhs"]["l"]] = v
+
+    def val(env, op):
+        c = _op_const(op)
+        if c is not None:
+            return c
+        pl = op.get("copy") or op.get("move")
+        if pl is None or pl["p"]:
+            return None
+        return env.get(pl["l"])
+
+    def tail_env(P, depth=6):
+        """constants known at the end of P (looking back through single-predecessor chains)"""
+        chain = [P]
+        cur = P
+        while depth > 0:
+            ps = preds.get(cur, [])
+            if len(ps) != 1 or ps[0] in chain:
+                break
+            cur = ps[0]
+            chain.append(cur)
+            depth -= 1
+        env = {}
+        for x in reversed(chain):
+            run(env, blocks[x])
+            t = blocks[x]["term"]
+            if t["k"] == "call":
+                env[t["dest"]["l"]] = None
+        return env
+
+    added = 0
+    for _ in range(rounds):
+        preds = defaultdict(list)
+        for b in blocks:
+            if b.get("cleanup"):
+                continue
+            for fld in _succ_fields(b["term"]):
+                preds[_get_succ(b["term"], fld)].append(b["id"])
+        changed = False
+        for S in list(blocks):
+            if added >= max_new:
+                break
+            t = S["term"]
+            if t["k"] != "switch" or S.get("cleanup") or not simple_block(S):
+                continue
+            pl = t["discr"].get("copy") or t["discr"].get("move")
+            if pl is None or pl["p"]:
+                continue
+            chain = [S["id"]]
+            cur = S["id"]
+            while len(set(preds.get(cur, []))) == 1:
+                q = preds[cur][0]
+                qb = blocks[q]
+                if q in chain or not simple_block(qb) or qb["term"]["k"] == "switch" or len(chain) > 6:
+                    break
+                chain.insert(0, q)
+                cur = q
+            head = chain[0]
+            hp = sorted(set(preds.get(head, [])))
+            if len(hp) < 2:
+                continue
+            for P in hp:
+                if P in chain:
+                    continue
+                env = tail_env(P)
+                for x in chain:
+                    run(env, blocks[x])
+                v = env.get(pl["l"])
+                if v is None:
+                    continue
+                hit = [a["target"] for a in t["arms"] if a["value"] == v]
+                dest = hit[0] if hit else t["otherwise"]
+                # clone the chain for this predecessor
+                base = len(blocks)
+                for i, x in enumerate(chain):
+                    nb = dict(blocks[x])
+                    nb["id"] = base + i
+                    nb["stmts"] = list(nb["stmts"])
+                    nt = dict(nb["term"])
+                    if x == S["id"]:
+                        nt = {"k": "goto", "target": dest, "at": nt.get("at")}
+                    else:
+                        for fld in _succ_fields(nt):
+                            if _get_succ(nt, fld) == chain[i + 1]:
+                                _set_succ(nt, fld, base + i + 1)
+                    nb["term"] = nt
+                    blocks.append(nb)
+                added += len(chain)
+                pt = dict(blocks[P]["term"])
+                for fld in _succ_fields(pt):
+                    if _get_succ(pt, fld) == head:
+                        _set_succ(pt, fld, base)
+                nbp = dict(blocks[P])
+                nbp["term"] = pt
+                blocks[P] = nbp
+                changed = True
+            if changed:
+                break
+        if not changed:
+            break
